@@ -43,6 +43,9 @@ OWN = [
     # several arrays in one program whose values may coincide while shape / element type differ
     ["name a4", "version 1.0", "", "float array A =", "    %(f)s, %(f)s", "    %(f)s, %(f)s", "float array B =", "    %(f)s, %(f)s, %(f)s, %(f)s", "Gate(A) | %(m)s", "Reweight(B, k=A) | %(m)s"],
     ["name a5", "version 1.0", "", "int array A =", "    %(i)s, %(i)s", "float array B =", "    %(f)s, %(f)s", "complex array C =", "    %(c)s, %(c)s", "Gate(A, B, C) | %(m)s", "Gate(C, A) | %(m)s"],
+    # tdm programs declare their own variables and pass ordinary arrays by value under generated names A0, A1, ...
+    ["name g1", "version 1.0", "type tdm (copies=%(i)s)", "", "float array A1 =", "    %(f)s, %(f)s", "float array A2 =", "    %(f)s, %(f)s", "Gate(A1) | %(m)s", "Gate(A2, k=A1) | %(m)s"],
+    ["name g2", "version 1.0", "type tdm", "", "int array A0 =", "    %(i)s", "float array A3 =", "    %(f)s", "float array p0 =", "    %(f)s, %(f)s", "Gate(A3, p0) | %(m)s", "Gate(A0, A3, k=A0) | %(m)s"],
     # expressions whose SymPy printing needs care (unary minus vs power, inverse functions, reciprocal)
     ["name x1", "version 1.0", "", "Rgate(-({a}**2), ({a}+1)**2) | %(m)s"],
     ["name x2", "version 1.0", "", "Rgate(arcsin({a})+arctanh({b}), k=arccos({a})) | %(m)s"],
